@@ -9,13 +9,15 @@ extern std::default_random_engine generator;
 static uint64_t tok() { std::ostringstream o; o << generator; std::string s = o.str(); return hmix(0x70, s.data(), s.size()); }
 static long seqn = 0;
 struct Stream {
-    std::string name; double alpha; std::vector<long> batch; long hist[16]; long nmask; long zeros;
-    Stream(const std::string& n, double a) : name(n), alpha(a), nmask(0), zeros(0) { memset(hist, 0, sizeof hist); }
+    std::string name; double alpha; std::vector<long> batch; long hist[16]; long nmask; long zeros; std::vector<uint32_t> prev; long same, npairs;
+    Stream(const std::string& n, double a) : name(n), alpha(a), nmask(0), zeros(0), same(0), npairs(0) { memset(hist, 0, sizeof hist); }
+    // per-coordinate freshness: a coordinate that equals the same coordinate of the previous mask (probability 2^-32 for a fresh uniform mask)
+    void maskvec(const Torus32* a, int n) { if ((int)prev.size() == n) { for (int i = 0; i < n; i++) if ((uint32_t)a[i] == prev[i]) same++; npairs += n; } prev.assign((const uint32_t*)a, (const uint32_t*)a + n); }
     void err(int32_t e) { if (alpha == 0) { if (e == 0) zeros++; batch.push_back(e); } else batch.push_back(lround((double)e / (alpha * 4294967296.0 / 64.0))); if (batch.size() >= 64) flush(); }
     void mask(uint32_t w) { hist[w >> 28]++; nmask++; }
     void flush() { if (batch.empty()) return; VH_B; vh_i("seq", seqn++); VH_C; vh_s("e", "Errs"); VH_C; vh_s("s", name.c_str()); VH_C; fputs("\"v\":[", vh_out); for (size_t i = 0; i < batch.size(); i++) fprintf(vh_out, "%s%ld", i ? "," : "", batch[i]); fputs("]", vh_out); VH_E; batch.clear(); }
     void end() { flush(); long s32 = alpha == 0 ? 0 : lround(alpha * 4294967296.0); if (s32 > 2000000000L) s32 = 2000000000L;
-        VH_B; vh_i("seq", seqn++); VH_C; vh_s("e", "StreamEnd"); VH_C; vh_s("s", name.c_str()); VH_C; vh_i("s32", s32); VH_C; vh_i("exact", alpha == 0 ? 1 : 0); VH_C; fputs("\"hist\":[", vh_out); for (int i = 0; i < 16; i++) fprintf(vh_out, "%s%ld", i ? "," : "", hist[i]); fprintf(vh_out, "],\"nmask\":%ld", nmask); VH_E; }
+        VH_B; vh_i("seq", seqn++); VH_C; vh_s("e", "StreamEnd"); VH_C; vh_s("s", name.c_str()); VH_C; vh_i("s32", s32); VH_C; vh_i("exact", alpha == 0 ? 1 : 0); VH_C; fputs("\"hist\":[", vh_out); for (int i = 0; i < 16; i++) fprintf(vh_out, "%s%ld", i ? "," : "", hist[i]); fprintf(vh_out, "],\"nmask\":%ld,\"same\":%ld,\"npairs\":%ld", nmask, same, npairs); VH_E; }
 };
 static std::string fmt(const char* f, double a, int x = 0) { char b[96]; snprintf(b, sizeof b, f, a, x); return b; }
 static void rand_ev(const char* op, uint64_t t0, uint64_t args, uint64_t out) {
@@ -51,8 +53,22 @@ static void fresh(int per) {
     LweParams* lp = new_LweParams(n, 0, 1); LweKey* k = new_LweKey(lp); lweKeyGen(k); LweSample* c = new_LweSample(lp);
     { long ones = 0; for (int i = 0; i < n; i++) ones += k->key[i]; VH_B; vh_i("seq", seqn++); VH_C; vh_s("e", "KeyBits"); VH_C; vh_s("s", "lwe500"); VH_C; vh_i("ones", ones); VH_C; vh_i("n", n); VH_E; }
     for (int ai = 0; ai < 7; ai++) { Stream s(fmt("lwe/a%.3g", alphas[ai]), alphas[ai]);
-        for (int q = 0; q < per; q++) { Torus32 mu = (Torus32)(q * 0x01234567u); lweSymEncrypt(c, mu, alphas[ai], k); s.err(lwePhase(c, k) - mu); for (int i = 0; i < 8; i++) s.mask((uint32_t)c->a[(q * 8 + i) % n]); }
+        for (int q = 0; q < per; q++) { Torus32 mu = (Torus32)(q * 0x01234567u); lweSymEncrypt(c, mu, alphas[ai], k); s.err(lwePhase(c, k) - mu); for (int i = 0; i < 8; i++) s.mask((uint32_t)c->a[(q * 8 + i) % n]); s.maskvec(c->a, n); }
         s.end(); }
+    // other dimensions, odd ones and 1 included: every coordinate of every mask is fresh, the noise level does not depend on the dimension
+    { int dims[5] = {1, 7, 64, 501, 631};
+      for (int di = 0; di < 5; di++) { int nn = dims[di]; LweParams* lp2 = new_LweParams(nn, 0, 1); LweKey* k2 = new_LweKey(lp2); lweKeyGen(k2); LweSample* c2 = new_LweSample(lp2); double al = ldexp(1., -15 - di);
+        Stream s(fmt("lwe/n%.0f", (double)nn), al);
+        for (int q = 0; q < per / 2 + 600; q++) { Torus32 mu = (Torus32)(q * 0x01234567u); if (q % 2) lweSymEncrypt(c2, mu, al, k2); else lweSymEncryptWithExternalNoise(c2, mu, 0., al, k2);
+            if (q % 2) s.err(lwePhase(c2, k2) - mu); for (int i = 0; i < 4; i++) s.mask((uint32_t)c2->a[(q * 4 + i) % nn]); s.maskvec(c2->a, nn); }
+        s.end(); delete_LweSample(c2); delete_LweKey(k2); delete_LweParams(lp2); }
+      // a key-switching key with odd output dimension from the public generator: rows are fresh encryptions under the output key
+      LweParams* pi = new_LweParams(40, 0, 1); LweParams* po = new_LweParams(33, ldexp(1., -20), 1); LweKey* ki = new_LweKey(pi); LweKey* ko = new_LweKey(po); lweKeyGen(ki); lweKeyGen(ko);
+      LweKeySwitchKey* ks = new_LweKeySwitchKey(40, 6, 2, po); lweCreateKeySwitchKey(ks, ki, ko);
+      Stream s("ks/custom33", ldexp(1., -20));
+      for (int i = 0; i < 40; i++) for (int j = 0; j < 6; j++) for (int h = 1; h < 4; h++) { const LweSample& r = ks->ks[i][j][h]; Torus32 msg = (Torus32)((uint32_t)(ki->key[i] * h) << (32 - (j + 1) * 2));
+          s.err(lwePhase(&r, ko) - msg); s.mask((uint32_t)r.a[(i + j + h) % 33]); s.mask((uint32_t)r.a[(i * 7 + j + h) % 33]); s.maskvec(r.a, 33); }
+      s.end(); delete_LweKeySwitchKey(ks); delete_LweKey(ki); delete_LweKey(ko); delete_LweParams(pi); delete_LweParams(po); }
     TLweParams* tp = new_TLweParams(1024, 1, 0, 1); TLweKey* tk = new_TLweKey(tp); tLweKeyGen(tk); TLweSample* tc = new_TLweSample(tp); TorusPolynomial* ph = new_TorusPolynomial(1024);
     { long ones = 0; for (int i = 0; i < 1024; i++) ones += tk->key[0].coefs[i]; VH_B; vh_i("seq", seqn++); VH_C; vh_s("e", "KeyBits"); VH_C; vh_s("s", "tlwe1024"); VH_C; vh_i("ones", ones); VH_C; vh_i("n", 1024); VH_E; }
     for (int ai = 1; ai < 7; ai++) { Stream s(fmt("tlwe/a%.3g", alphas[ai]), alphas[ai]);
@@ -77,7 +93,7 @@ static void keyrows(int lambda, int bkrows) {
     LweKey* xk = new_LweKey(&p->tgsw_params->tlwe_params->extracted_lweparams); tLweExtractKey(xk, &sk->tgsw_key->tlwe_key);
     Stream s(fmt("ks/lambda%.0f", (double)lambda), aks); long nontrivial0 = 0, rows0 = 0;
     for (int i = 0; i < ks->n; i++) for (int j = 0; j < ks->t; j++) { const LweSample& z = ks->ks[i][j][0]; rows0++; bool triv = z.b == 0; for (int q = 0; q < n && triv; q++) if (z.a[q]) triv = false; if (!triv) nontrivial0++;
-        for (int h = 1; h < ks->base; h++) { const LweSample& r = ks->ks[i][j][h]; Torus32 msg = (Torus32)((uint32_t)(xk->key[i] * h) << (32 - (j + 1) * ks->basebit)); s.err(lwePhase(&r, sk->lwe_key) - msg); s.mask((uint32_t)r.a[(i + j + h) % n]); } }
+        for (int h = 1; h < ks->base; h++) { const LweSample& r = ks->ks[i][j][h]; Torus32 msg = (Torus32)((uint32_t)(xk->key[i] * h) << (32 - (j + 1) * ks->basebit)); s.err(lwePhase(&r, sk->lwe_key) - msg); s.mask((uint32_t)r.a[(i + j + h) % n]); if ((i + j) % 16 == 0) s.maskvec(r.a, n); } }
     s.end();
     VH_B; vh_i("seq", seqn++); VH_C; vh_s("e", "Digit0"); VH_C; vh_s("s", s.name.c_str()); VH_C; vh_i("rows", rows0); VH_C; vh_i("nontrivial", nontrivial0); VH_E;
     { long ones = 0; for (int i = 0; i < n; i++) ones += sk->lwe_key->key[i]; VH_B; vh_i("seq", seqn++); VH_C; vh_s("e", "KeyBits"); VH_C; vh_s("s", fmt("lwekey/lambda%.0f", (double)lambda).c_str()); VH_C; vh_i("ones", ones); VH_C; vh_i("n", n); VH_E; }
